@@ -22,4 +22,10 @@ META = {
         "note": "Trusted: Coq kernel, harness; the Panic sites in the model are placed by hand where the Go code indexes or slices; correspondence compares Ok/Err/Panic outcome and decoded instructions.",
         "technique": "Coq proof (totality by case analysis on explicit panic sites; refinement to a strict reference grammar) + correspondence by vm_compute",
     },
+    "C12": {
+        "text": "Crash-atomicity theorem for the operation list Put performs today (CreateTemp in the same directory, Write, Chmod, Close, Rename): at every crash state - before/after each operation and after every partial transfer of the write, for all byte strings and any split into write calls - the session's record is the complete previous or the complete new one (first save: absent or complete), no other file changes, recovery (Persister.Load + ensurePersist) continues from one of the two and never starts a fresh session, a failed save changes nothing and leaves no temp file, and a leftover temp file is never a record name, never changes another session's recovery or the Dump listing. Refutation theorem for the pre-repair list (truncate, write, close): for every store there is a crash state with an empty record, recovery starts a fresh session and overwrites it. Tied to the code by (1) strace of the real Put in a child process, abstracted syscall sequence = the model's list, (2) materialising the model's crash states for real persisted records and running the real Load/Dump/engine on them, (3) really killing the real Put at write/fchmod/renameat.",
+        "design_ref": "DESIGN.md section 6 C12",
+        "note": "Trusted: Coq kernel, harness, strace and the syscall abstraction. Process death only (no power loss, no fsync claimed); POSIX rename/O_EXCL/partial-write semantics assumed; CBOR validity is a hypothesis checked per generated record. The crash states between system calls are produced by replaying the model's operations with real system calls (and, for three points, by really killing the process), not by exhaustive kill injection at every byte.",
+        "technique": "Coq proof (induction over the write chunks / prefixes; alist lemmas) + syscall-trace correspondence + crash-state materialisation evaluated by vm_compute, with negative controls for the old operation list",
+    },
 }
